@@ -50,9 +50,15 @@ package formatter
 //@   ensures [C05:amount_column] posting.Amount != nil && alignAmounts && alignment.AccountCol > 0 ==> spaces__1 == ite(alignment.AccountCol - rcount(AcctText(posting, indent)) >= 2, alignment.AccountCol - rcount(AcctText(posting, indent)), 2)
 //@   ensures [C04:symbol_leads_amount] posting.Amount != nil && posting.Amount.Commodity.Position == 0 && len(posting.Amount.Commodity.Symbol) > 0 ==> (forall n int :: {result[n + spaces__1]} AcctEnd(posting, indent, n) ==> result[n + spaces__1] == posting.Amount.Commodity.Symbol[0] || ((result[n + spaces__1] == '-' || result[n + spaces__1] == '+') && result[n + spaces__1 + 1] == posting.Amount.Commodity.Symbol[0]))
 //@   ensures [C04:cost_kept] posting.Amount == nil && posting.Cost != nil ==> (forall n int :: {result[n]} AcctEnd(posting, indent, n) ==> len(result) >= n + 3 && result[n] == ' ' && result[n + 1] == '@' && (result[n + 2] == ' ' || result[n + 2] == '@'))
-//@ trusted CalculateAlignmentWithGlobal
-//@   effects none
-//@   ensures result.AccountCol == accountCol
+// The amount column of a transaction is the file-wide column it is handed, whatever its own postings look like (one
+// common column); the assertion column, when there is one, lies at least two blanks after it.
+//@ func CalculateAlignmentWithGlobal
+//@   props C05 C06
+//@   requires FormatsOK(commodityFormats)
+//@   ensures [C05:account_col_is_global] result.AccountCol == accountCol
+//@   ensures [C05:assertion_col_after_amounts] result.BalanceAssertionCol == 0 || result.BalanceAssertionCol >= accountCol + 2
+//@   loop 1 invariant 0 - 1 <= rangeindex && rangeindex <= len(postings) - 1 && maxAmountCostLen >= 0
+//@   loop 1 decreases len(postings) - rangeindex
 // Decimal places of a display format are counted from the format text: small and non-negative (ParseNumberFormat).
 //@ trusted extractCommodityFormats
 //@   ensures result != nil && fresh(result) && FormatsOK(result)
